@@ -400,7 +400,10 @@ def prebuild(ctx):
     ctx.coq_build_cached(["C14/GenEval.v", "C14/EvalSound.v", "C14/PropsEval.v"])
     (COQ / "C14" / "GenRange.v").write_text(gen_range())
     _range_build(ctx)
-    from vlib import c14_clients
+    from vlib import c14_clients, c14_memloc
+    text, _ = c14_memloc.gen_coq()
+    (COQ / "C14" / "GenMemLoc.v").write_text(text)
+    ctx.coq_build_cached(["C14/MemLocBase.v", "C14/GenMemLoc.v", "C14/MemLocSound.v", "C14/PropsMemLoc.v"], deps=["C14/RangeBase.v"], timeout=600)
     text, _ = c14_clients.gen_coq()
     (COQ / "C14" / "GenRangeClients.v").write_text(text)
     ctx.coq_build_cached(["C14/GenRangeClients.v", "C14/RangeClients.v", "C14/RangeRefine.v", "C14/PropsClients.v"], deps=RANGE_PRE, timeout=900)
@@ -610,6 +613,93 @@ def part_clients(ctx):
     return n
 
 
+# ---------------------------------------------------------------- memory location aliasing tests
+def part_memloc(ctx):
+    from vlib import c14_memloc
+    from vyper.venom.basicblock import IRInstruction, IRLiteral
+    from vyper.venom.memory_location import Allocation, MemoryLocation
+    gen_err = None
+    mod = None
+    try:
+        text, _ = c14_memloc.gen_coq()
+        (COQ / "C14" / "GenMemLoc.v").write_text(text)
+        mod, _ = c14_memloc.load_module()
+    except Unsupported as e:
+        gen_err = str(e)
+    allocs = [None, Allocation(IRInstruction("alloca", [IRLiteral(64)])), Allocation(IRInstruction("alloca", [IRLiteral(64)]))]
+    offs = [None, 0, 31, 32, 33, 64]
+    sizes = [None, 0, 1, 32, 33]
+    locs = [(o, sz, ai) for o in offs for sz in sizes for ai in range(3)]
+    n = 0
+    found = False
+
+    def cells(loc):
+        """byte cells denoted by a location inside a 0..127 window of its region (None = unbounded)"""
+        o, sz, ai = loc
+        if sz == 0:
+            return set()
+        if o is None:
+            return {(ai, k) for k in range(0, 128)}
+        hi = 128 if sz is None else min(128, o + sz)
+        return {(ai, k) for k in range(o, hi)}
+
+    real = [MemoryLocation(offset=o, size=sz, alloca=allocs[ai]) for (o, sz, ai) in locs]
+    py_mo, py_cc = [], []
+    for i, a in enumerate(locs):
+        for j, b in enumerate(locs):
+            n += 1
+            try:
+                r = MemoryLocation.may_overlap(real[i], real[j])
+            except Exception as e:
+                r = None
+            try:
+                c = real[i].completely_contains(real[j])
+            except Exception as e:
+                c = None
+            py_mo.append(2 if r is None else int(r))
+            py_cc.append(2 if c is None else int(c))
+            if r is False and (cells(a) & cells(b)) and not found:
+                found = True
+                ctx.violation("failing-input", "MemoryLocation.may_overlap says 'no overlap' for locations that share a byte",
+                              {"loc1": str(a), "loc2": str(b), "call": "MemoryLocation.may_overlap(MemoryLocation(offset,size,alloca#), ...)"},
+                              key=f"memloc:may_overlap:{a}:{b}")
+            if c is True and not (cells(b) <= cells(a)) and not found:
+                found = True
+                ctx.violation("failing-input", "MemoryLocation.completely_contains says 'contains' but a byte of the other location is outside",
+                              {"self": str(a), "other": str(b)}, key=f"memloc:contains:{a}:{b}")
+            if mod is not None:
+                try:
+                    if mod.may_overlap(real[i], real[j]) != r or mod.completely_contains(real[i], real[j]) != c:
+                        ctx.violation("correspondence-broken", "sliced alias test differs from the real method", {"loc1": str(a), "loc2": str(b)})
+                        mod = None
+                except Exception:
+                    pass
+    ctx.corr["memloc_pairs"] = n
+    if gen_err is not None:
+        if not found:
+            ctx.violation("translator-rejected", "cannot slice/translate memory_location.py alias tests: " + gen_err, {"error": gen_err})
+        return n
+    b = ctx.coq_build_cached(["C14/MemLocBase.v", "C14/GenMemLoc.v", "C14/MemLocSound.v", "C14/PropsMemLoc.v"], deps=["C14/RangeBase.v"], timeout=600)
+    if (COQ / "C14" / "GenMemLoc.vo").exists() and (b["ok"] or "GenMemLoc" not in b.get("file", "")):
+        def oz(x):
+            return "None" if x is None else f"(Some {coqrun.hexlit(x)})"
+        ls = "[" + "; ".join(f"{{| ml_offset := {oz(o)}; ml_size := {oz(sz)}; ml_alloca := {oz(None if ai == 0 else ai)} |}}" for (o, sz, ai) in locs) + "]"
+        imports = ("From Verif Require Import Base.PyInt C14.RangeBase C14.MemLocBase C14.GenMemLoc.\n"
+                   f"Definition LS : list memloc := {ls}.\n"
+                   "Definition eb (r : res bool) : Z := match r with Ok true => 1 | Ok false => 0 | Err _ => 2 end.\n"
+                   f"Definition hashl (l : list Z) : Z := fold_left (fun h x => (h * {HASH_B} + (x mod {HASH_P})) mod {HASH_P}) l 7.")
+        outs = coqrun.eval_zlists(imports, ["[hashl (map (fun p => eb (may_overlap (fst p) (snd p))) (list_prod LS LS))]",
+                                            "[hashl (map (fun p => eb (completely_contains (fst p) (snd p))) (list_prod LS LS))]"], "c14memloc", shard=2)
+        if outs[0][0] != _hash(py_mo) or outs[1][0] != _hash(py_cc):
+            ctx.violation("correspondence-broken", "py2coq model of may_overlap/completely_contains disagrees with CPython", {})
+    if not b["ok"] and not found:
+        ctx.violation("theorem-broken", f"{b.get('failed_lemma')} in {b['file']}",
+                      {"theorem": b.get("failed_lemma"), "file": b["file"], "coq_output": b["out"][-1500:]})
+    ctx.assumptions.append("memloc_disjoint_sound: distinct not-yet-placed allocations are modelled as disjoint regions "
+                           "(the allocator's obligation, proved for the concretize loop in C04)")
+    return n
+
+
 def run(ctx):
     import time
     total = 0
@@ -621,7 +711,9 @@ def run(ctx):
     total += part_range(ctx)
     ctx.log(f"range {time.time()-t:.0f}s"); t = time.time()
     total += part_clients(ctx)
-    ctx.log(f"range clients {time.time()-t:.0f}s")
+    ctx.log(f"range clients {time.time()-t:.0f}s"); t = time.time()
+    total += part_memloc(ctx)
+    ctx.log(f"memloc {time.time()-t:.0f}s")
     ctx.corr.setdefault("evaluations", 0)
     ctx.corr["evaluations"] += total
     ctx.corr["distinct_nontrivial"] = total
